@@ -45,6 +45,8 @@ for _name, _val in html.entities.html5.items():
             if _val not in NAMED_LONG or len(nm) > len(NAMED_LONG[_val]):
                 NAMED_LONG[_val] = nm
 # characters whose longest HTML5 name is very long (boundary of every length limit in the entity scanner)
+# code points on both sides of every boundary of the "may a reference denote it" table
+BOUNDARY_CHARS = [chr(c) for c in (0x09, 0x0C, 0x20, 0x7E, 0xA0, 0xD7FF, 0xE000, 0xFDCF, 0xFDF0, 0xFDFA, 0xFDFF, 0xFFFD, 0x10000, 0x1FFFD, 0x20000, 0x2FFFD, 0xFFFFD, 0x10FFFD, 0xFEFF, 0xFFF0, 0x2028, 0x85)]
 LONG_NAME_CHARS = [c for c, n in sorted(NAMED_LONG.items(), key=lambda kv: -len(kv[1]))[:40]]
 
 
@@ -79,10 +81,14 @@ def _case(draw):
             chars.append(d.pick(ALNUM))
         elif k < 70:
             chars.append(d.pick([" ", "\t", "  "]))
-        elif k < 87:
+        elif k < 84:
             chars.append(d.pick(NONASCII))
-        elif k < 90:
+        elif k < 87:
+            chars.append(d.pick(BOUNDARY_CHARS))
+        elif k < 89:
             chars.append(d.pick(LONG_NAME_CHARS))
+        elif k < 90:
+            chars.append(d.pick(BOUNDARY_CHARS))
         elif k < 95:
             chars.append(d.unichar())
         elif form == "backslash":
